@@ -1,4 +1,4 @@
-import MxModel.Proofs.Registry
+import MxModel.Proofs.RegistryExact
 /-!
 # C19 – Model registry: unique names, no model dropped
 
@@ -30,10 +30,31 @@ theorem registry_inv_run (kw : List String) (ops : List Op) : RegInv (run kw {} 
   | nil => intro r h; exact h
   | cons op rest ih => intro r h; exact ih _ (registry_inv_step kw r op h)
 
-/-- the registry maps each name to the model that carries that name, and names are unique -/
-theorem registry_maps_names (r : Reg) (h : RegInv r) (k : String) (m : Model)
-    (hk : lookupName r.models k = some m) : m.name = k ∧ (keys r).Nodup :=
-  ⟨h.nameKey _ (lookupName_some hk), h.keysNodup⟩
+/-- **After every history** the registry maps each name to the model that carries that name, names
+are unique, and no model is registered under two names. -/
+theorem registry_maps_names (kw : List String) (ops : List Op) :
+    (∀ k m, lookupName (run kw {} ops).models k = some m → m.name = k) ∧
+    (keys (run kw {} ops)).Nodup ∧ (ids (run kw {} ops).models).Nodup :=
+  ⟨fun _ _ hk => (registry_inv_run kw ops).nameKey _ (lookupName_some hk),
+   (registry_inv_run kw ops).keysNodup, (registry_inv_run kw ops).idsNodup⟩
+
+/-- **One operation, exactly** (`never_dropped` and its converse).  After any operation a model is
+registered iff it was registered before and the operation is not its own `close`, or it is the
+model the operation handed to the caller (`new_model` that was accepted, `read_model` that
+succeeded).  So nothing but its own `close` drops a model – not a creation, a read (also one that
+fails and closes the model it had created) or a rename under a name in use – and nothing is
+registered that was not handed out. -/
+theorem registered_step_iff (kw : List String) (r : Reg) (h : RegInv r) (op : Op) (j : Nat) :
+    j ∈ ids (step kw r op).models ↔
+      (j ∈ ids r.models ∧ closes op j = false) ∨ handed kw r op = some j :=
+  step_ids_iff kw h op j
+
+/-- **Every history**: the registered models are exactly the models the caller was handed and has
+not closed since (`openHandles` is computed from what the caller sees alone: the identities
+returned by `new_model`/`read_model` and its own `close` calls). -/
+theorem registered_iff_open_handle (kw : List String) (ops : List Op) (j : Nat) :
+    j ∈ ids (run kw {} ops).models ↔ j ∈ openHandles kw {} ops [] :=
+  run_ids_iff kw ops {} [] ⟨by simp, by simp [mkeys], by simp [ids], by simp⟩ (by simp [ids]) j
 
 /-- No operation other than its own `close` drops a model: creating, reading (also a read
 that fails and closes the model it created) or renaming under a name already in use keeps
@@ -60,6 +81,15 @@ theorem new_model_keeps_old (kw : List String) (r : Reg) (h : RegInv r) (n : Str
   never_dropped kw r h _ _ (by intro j hj; cases hj) (by
     simp only [ids, List.mem_map]; exact ⟨(n, m), lookupName_some hk, rfl⟩)
 
+/-- "… it is renamed with a backup suffix": after `new_model(n)` for a name `n` in use, the previous
+holder is registered under `n_BAK<k>` for some number `k`, and that is its own name now (by
+`registry_inv_step` this is its only registration) -/
+theorem displaced_model_gets_backup_name (kw : List String) (r : Reg) (n : String) (m : Model)
+    (hk : lookupName r.models n = some m) :
+    ∃ k : Nat, (n ++ "_BAK" ++ toString k, { id := m.id, name := n ++ "_BAK" ++ toString k }) ∈
+      (step kw r (.new (some n))).models :=
+  newModel_displaced kw r n m hk
+
 /-! Non-vacuity: a concrete non-trivial session (collision with an already-suffixed name)
 meets the invariant, and the collision really produces the second backup name. -/
 def demoOps : List Op :=
@@ -70,5 +100,20 @@ example : (keys (run [] {} demoOps)) = ["A_BAK3", "A_BAK4", "Model2"] := by
   decide +kernel
 
 example : RegInv (run [] {} demoOps) := registry_inv_run [] demoOps
+
+/-- the hypothesis of `displaced_model_gets_backup_name` is met after `new_model("A")`; the backup
+name is `A_BAK1` -/
+example : lookupName (run [] {} [.new (some "A")]).models "A" = some ⟨0, "A"⟩ ∧
+    (run [] {} [.new (some "A"), .new (some "A")]).models = [("A_BAK1", ⟨0, "A_BAK1"⟩), ("A", ⟨1, "A"⟩)] := by
+  decide +kernel
+
+/-- the caller's side of `demoOps`: handed 0 1 2, (3 by the failing read: not handed), closed 0,
+handed 4 -/
+example : openHandles [] {} demoOps [] = [1, 2, 4] ∧ ids (run [] {} demoOps).models = [2, 1, 4] := by
+  decide +kernel
+/-- a `close` BEFORE the identity exists does not count, closing twice neither -/
+example : openHandles [] {} [.close 0, .new (some "A"), .close 1, .new none, .close 1] [] = [0] ∧
+    ids (run [] {} [.close 0, .new (some "A"), .close 1, .new none, .close 1]).models = [0] := by
+  decide +kernel
 
 end MxModel.C19
